@@ -47,6 +47,7 @@ type sftpJob struct {
 	Unc  bool     `json:"unc"`
 	N    int      `json:"n"`
 	Keep []string `json:"keep"`
+	CancelAt int  `json:"cancel_at"`
 	Op   string   `json:"op"` // prune | store-then-list
 	Data string   `json:"data,omitempty"`
 }
@@ -75,7 +76,11 @@ func c16SFTPChild() {
 			id, _ := desync.ChunkIDFromString(h)
 			keep[id] = struct{}{}
 		}
-		err = s.Prune(context.Background(), keep)
+		var ctx context.Context = context.Background()
+		if job.CancelAt > 0 {
+			ctx = &countCtx{Context: context.Background(), at: int32(job.CancelAt)}
+		}
+		err = s.Prune(ctx, keep)
 		fmt.Println("result:", lsErrClass(err))
 	case "store":
 		err = s.StoreChunk(desync.NewChunk(vh.UnHex(job.Data)))
@@ -127,8 +132,12 @@ func c16SFTP(a vh.Args, o *vh.Oracle, r *vh.Result, c *c16Case) error {
 	if err := writeTree(dir, c.Tree); err != nil {
 		return err
 	}
+	od, err := c16Outside(a, c)
+	if err != nil {
+		return err
+	}
 	before, _ := snapshotTree(dir)
-	res, err := c16RunSFTP(a, sftpJob{Dir: dir, Unc: c.Unc, N: c.N, Keep: c.Keep, Op: "prune"}, 8*time.Second)
+	res, err := c16RunSFTP(a, sftpJob{Dir: dir, Unc: c.Unc, N: c.N, Keep: c.Keep, Op: "prune", CancelAt: c.CancelAt}, 8*time.Second)
 	if err != nil {
 		return err
 	}
@@ -136,9 +145,13 @@ func c16SFTP(a vh.Args, o *vh.Oracle, r *vh.Result, c *c16Case) error {
 		res = "nil"
 	}
 	after, _ := snapshotTree(dir)
+	if oa, _ := snapshotTree(od); diffTrees(c.Outside, oa) != "" {
+		c.What = "SFTP prune changed files OUTSIDE the store directory: " + diffTrees(c.Outside, oa)
+		r.Fail("predicate", "sftp/touches-outside", c.What, c)
+	}
 	unref := 0
 	for _, e := range before {
-		if id, ok := canonicalID(e.Path, c.Unc); ok && e.Kind == "f" && !lsInSet(c.Keep, id) {
+		if id, ok := canonicalID(e.Path, c.Unc); ok && e.Kind != "d" && !lsInSet(c.Keep, id) {
 			unref++
 		}
 	}
@@ -175,10 +188,16 @@ func c16SFTP(a vh.Args, o *vh.Oracle, r *vh.Result, c *c16Case) error {
 	}
 	if res == "nil" {
 		for _, e := range after {
-			if id, ok := canonicalID(e.Path, c.Unc); ok && e.Kind == "f" && !lsInSet(c.Keep, id) {
+			if id, ok := canonicalID(e.Path, c.Unc); ok && e.Kind != "d" && !lsInSet(c.Keep, id) {
 				cls := "sftp/leaves-unreferenced"
 				if c.Unc {
 					cls = "sftp/prune-uncompressed-noop"
+				}
+				if e.Kind == "l" {
+					cls = "sftp/leaves-unreferenced-symlinked-chunk"
+				}
+				if c.CancelAt > 0 {
+					cls = "sftp/cancelled-reports-success"
 				}
 				fail(cls, "SFTP prune returned nil but left the unreferenced chunk "+e.Path)
 			}
@@ -192,10 +211,10 @@ func c16SFTP(a vh.Args, o *vh.Oracle, r *vh.Result, c *c16Case) error {
 			alias = true
 		}
 	}
-	if o == nil || alias {
+	if o == nil || alias || c.CancelAt > 0 {
 		return nil
 	}
-	ans, err := o.Call("c16.sftpprune", lsB01(c.Unc), lsHx([]byte(dir)), strings.Join(c.Keep, ","), encodeTree("s", before))
+	ans, err := o.Call("c16.sftpprune", lsB01(c.Unc), lsHx([]byte(dir)), strings.Join(c.Keep, ","), encodeTreeOutside("s", before, c.Outside))
 	if err != nil {
 		return err
 	}
@@ -259,7 +278,10 @@ func c16SFTPAll(a vh.Args, o *vh.Oracle, r *vh.Result, rng *vh.Rand) error {
 	for i := 0; i < n; i++ {
 		g := c16GenTree(rng)
 		keep, tag := c16Keep(rng, g.ids)
-		c := &c16Case{Kind: "sftpprune", Backend: "sftp", Unc: i%2 == 0, Tree: g.ents, Keep: keep, KeepTag: tag, Feat: lsFeats(g.feat), N: 2 + rng.Intn(2)}
+		c := &c16Case{Kind: "sftpprune", Backend: "sftp", Unc: i%2 == 0, Tree: g.ents, Keep: keep, KeepTag: tag, Feat: lsFeats(g.feat), N: 2 + rng.Intn(2), Outside: g.outside}
+		if i%4 == 1 {
+			c.CancelAt = 1 + rng.Intn(len(g.ents)+2)
+		}
 		if i == 2 || i == 3 {
 			c.N = 1
 		}
